@@ -210,16 +210,18 @@ class C18(Property):
         'control flow of ionic_strength (length check, accumulation loops, dict branch, `if warn`) and the final `return d <= lim` of allclose '
         'are hand-modelled (pinned anchors + guards); only the expressions b*z**2, b*z, tot/2, tot*0, tot*1e-14, abs(a-b), abs(a)*rtol+atol '
         'are translated from the source',
-        'the loops of the three activity products and the two callable classes are hand-modelled (nr * log_gamma(z[idx]), every species incl. '
+        'the loops of the three activity products and the two callable classes are hand-modelled (text pinned by activity_product_sources_guard) (nr * log_gamma(z[idx]), every species incl. '
         'z = 0 and coefficient 0 — theorem activity_product_neutral_species is about that model): a skipped species in the Python is found by correspondence + oracle only',
-        'permutation of the dict form: follows from perm_invariant + the by-key theorems but is not stated separately',
-        'backend= of A / B / log-gamma (numpy, math, sympy): the translator maps every backend to the same Lean text; oracle uses the default backend only',
+        'backend= of A / B / log-gamma / products (numpy, math, sympy): the translator maps every backend to the same Lean text, so no theorem; '
+        'the oracle evaluates every such case under math and sympy as well and requires agreement to 1e-12',
         'inputs are not modified and repeated calls reproduce (histories): oracle only — the functional model cannot express aliasing',
         'UncertainQuantity molalities (allclose unwraps them, units.py:524-527): magnitudes only, by correspondence + oracle; the propagated '
         'uncertainty of the result is not part of the property and not checked',
         'allclose on nested lists, on arrays of more than one dimension and with a list-valued atol: not modelled (numbers and 1-d arrays in '
         'every broadcast combination, flat lists and list-vs-number are modelled: allcloseB / allcloseList, theorem allclose_broadcast_spec); '
         'the control flow of its array branch is hand-modelled behind the text guard allclose_array_branch_guard',
+        'float rounding itself: no_warning_under_rounding proves that a net charge below 9e-15*sum(b|z|) draws no warning; that double-precision '
+        'evaluation of <= 8 products and sums stays below that bound is argued in the docstring and exercised by the decimal-neutral stream, not proved',
         'values of the physical constants: read from the installed quantities, not derived',
     )
     anchors = (('chempy/electrolytes.py', 'ionic_strength'), ('chempy/units.py', 'allclose'),
@@ -265,7 +267,8 @@ class C18(Property):
             zs[1] = zs[0]
         bs = [Fraction(self._dec(rng, 1e-9, 1e3)) for _ in range(k)]
         mode = rng.random()
-        dyadic = num == 'float' and mode < 0.60
+        dyadic = num == 'float' and mode < 0.60 and rng.random() < 0.5
+        decimal = num == 'float' and mode < 0.45 and not dyadic     # neutral "on paper" (decimal arithmetic), rounded by float()
         if dyadic:
             # floats on which every sum of the code is exact (integers * 2^-j, one j per case): "neutral" is then exactly
             # neutral in floating point too, so the oracle can state the warning for float / Quantity inputs as well
@@ -276,7 +279,7 @@ class C18(Property):
             # make it neutral (or nearly): solve for the last entry with a non-zero charge of the right sign
             net = sum(b * z for b, z in zip(bs[:-1], zs[:-1]))
             if net != 0:
-                zl = rng.choice([1, 2, 4] if dyadic else [1, 2, 3, 4]) * (-1 if net > 0 else 1)
+                zl = rng.choice([1, 2, 4] if (dyadic or decimal) else [1, 2, 3, 4]) * (-1 if net > 0 else 1)
                 zs[-1] = zl
                 bs[-1] = -net / zl
                 tot = sum(b * z * z for b, z in zip(bs, zs))
@@ -306,6 +309,10 @@ class C18(Property):
             bs = bs[:len(keys)]
             self._gen_substances(rng, c, zs)
         c['z'] = zs
+        # the decimal values sum to net charge exactly 0, the floats passed to the code only up to rounding (<= 8 integer charges):
+        # the tolerance of the neutrality test exists for exactly this class, so "no warning" is claimed (theorem no_warning_under_rounding)
+        c['paper_neutral'] = bool(num == 'float' and not c['dyadic'] and len(zs) >= 2 and sum(b * z for b, z in zip(bs, zs)) == 0
+                                  and all(b >= 0 for b in bs))
         if num == 'rat':
             c['b'] = [rat_json(b) for b in bs]
         else:
@@ -383,10 +390,14 @@ class C18(Property):
             c['form'] = 'dict'
             c['num'] = 'rat' if rng.random() < 0.5 else 'float'
             one = (lambda: 1) if c['num'] == 'rat' else (lambda: 1.0)
-            which = rng.choice(['empty', 'blank-key', 'empty-key', 'unknown', 'two-in-one', 'lower', 'multi-sign', 'slash'])
+            which = rng.choice(['empty', 'blank-key', 'empty-key', 'unknown', 'two-in-one', 'lower', 'multi-sign', 'slash',
+                                'nbsp', 'thin-space', 'ideographic', 'nel'])
             keys = {'empty': [], 'blank-key': ['Na+', 'Cl -'], 'empty-key': ['Na+', ''], 'unknown': ['Na+', 'Xx-'],
                     'two-in-one': ['Mg+2', 'Na+ Cl-'], 'lower': ['na+', 'Cl-'], 'multi-sign': ['Fe+++', 'Cl-'],
-                    'slash': ['Cl-', 'Fe/3+']}[which]
+                    'slash': ['Cl-', 'Fe/3+'],
+                    # str.split() also splits at the non-ASCII white space of str.isspace(): the key falls apart -> KeyError
+                    'nbsp': ['Mg+2', 'Na+\u00a0Cl-'], 'thin-space': ['Mg+2', 'Na+\u2009Cl-'], 'ideographic': ['K+\u3000', 'Cl-'],
+                    'nel': ['K+', 'Na+\u0085']}[which]
             c.update({'keys': keys, 'z': [], 'b': [one() for _ in keys], 'mal': which})
             return c
         c['form'] = 'list'
@@ -457,6 +468,8 @@ class C18(Property):
                 if net * z[-1] < 0:
                     cc[-1] = -net / z[-1]
             c['c'] = cc
+            if f == 'cls_ext' and rng.random() < 0.3:
+                c['C'], c['C_given'] = 0.0, False          # C left out: default of extended_activity_product through *self.args
             c['short'] = False          # ionic_strength would raise ValueError first (lengths)
             if short:                   # instead: stoichiometry longer than the charges
                 c['stoich'] = stoich + [1.0]
@@ -790,6 +803,8 @@ class C18(Property):
                   'a': [f2b(x) for x in c['a']], 'T': f2b(c['T']), 'eps': f2b(c['eps']), 'rho': f2b(c['rho']), 'C': f2b(c['C'])}
             if 'c' in c:
                 mc['c'] = [f2b(x) for x in c['c']]
+            if not c.get('C_given', True):
+                del mc['C']
             return mc
         if kd == 'vec':
             return {'op': 'is_vec', 'kind': kd, 'case': c, 'rows': [[f2b(x) for x in r] for r in c['rows']],
@@ -912,16 +927,17 @@ class C18(Property):
             return float((pq.Quantity(r) / _unit(u, c['unit'])).simplified.magnitude)
         return r
 
-    def _real_ab(self, c, path=None, inv=_plain):
+    def _real_ab(self, c, path=None, inv=_plain, backend=None):
         from chempy import electrolytes as E
         from chempy.units import default_units as u, default_constants as consts
         f = getattr(E, c['which'])
         p = path or c['path']
         eps, T, rho, b0 = c['eps'], c['T'], c['rho'], c['b0']
+        kwb = {} if backend is None else {'backend': backend}
         if p == 'num':
-            return float(inv(f, eps, T, rho, b0))
+            return float(inv(f, eps, T, rho, b0, **kwb))
         if p == 'const_plain':
-            return float(inv(f, eps, T, rho, b0, constants=SimpleNamespace(**self.CONST_SI)))
+            return float(inv(f, eps, T, rho, b0, constants=SimpleNamespace(**self.CONST_SI), **kwb))
         Tq = T * u.K
         rq = (rho / RHO_UNITS[c['rho_unit']]) * _unit(u, c['rho_unit'])
         bq = (b0 / MOLAL_UNITS[c['b0_unit']]) * _unit(u, c['b0_unit'])
@@ -943,6 +959,9 @@ class C18(Property):
         from chempy import electrolytes as E
         d = dict(c)
         d.update(over)
+        if d.get('backend') is not None:
+            _inv, _be = inv, d['backend']
+            inv = lambda f, *a, **k: _inv(f, *a, backend=_be, **k)
         IS, I0 = d['IS'], d['I0']
         if d['units']:
             from chempy.units import default_units as u
@@ -970,16 +989,17 @@ class C18(Property):
             return float(s.magnitude)
         return float(r)
 
-    def _real_ap(self, c, cap=captured):
+    def _real_ap(self, c, cap=captured, backend=None):
         from chempy import electrolytes as E
         f = c['f']
         ints = lambda l: [int(x) for x in l]
+        kw = {} if backend is None else {'backend': backend}
         if f == 'lim':
-            return cap(E.limiting_activity_product, c['IS'], ints(c['stoich']), ints(c['z']), c['T'], c['eps'], c['rho'])
+            return cap(E.limiting_activity_product, c['IS'], ints(c['stoich']), ints(c['z']), c['T'], c['eps'], c['rho'], **kw)
         if f == 'ext':
-            return cap(E.extended_activity_product, c['IS'], ints(c['stoich']), ints(c['z']), c['a'], c['T'], c['eps'], c['rho'], c['C'])
+            return cap(E.extended_activity_product, c['IS'], ints(c['stoich']), ints(c['z']), c['a'], c['T'], c['eps'], c['rho'], c['C'], **kw)
         if f == 'dav':
-            return cap(E.davies_activity_product, c['IS'], ints(c['stoich']), ints(c['z']), c['a'], c['T'], c['eps'], c['rho'], c['C'])
+            return cap(E.davies_activity_product, c['IS'], ints(c['stoich']), ints(c['z']), c['a'], c['T'], c['eps'], c['rho'], c['C'], **kw)
         if f == 'cls_base':
             obj = E._ActivityProductBase(ints(c['stoich']), ints(c['z']), c['T'], c['eps'], c['rho'])
             if obj.stoich != ints(c['stoich']) or obj.args != (ints(c['z']), c['T'], c['eps'], c['rho']):
@@ -987,7 +1007,8 @@ class C18(Property):
         elif f == 'cls_lim':
             obj = E.LimitingDebyeHuckelActivityProduct(ints(c['stoich']), ints(c['z']), c['T'], c['eps'], c['rho'])
         else:
-            obj = E.ExtendedDebyeHuckelActivityProduct(ints(c['stoich']), ints(c['z']), c['a'], c['T'], c['eps'], c['rho'], c['C'])
+            extra = (c['C'],) if c.get('C_given', True) else ()
+            obj = E.ExtendedDebyeHuckelActivityProduct(ints(c['stoich']), ints(c['z']), c['a'], c['T'], c['eps'], c['rho'], *extra)
         return cap(obj, c['c'])
 
     def impl(self, mc):
@@ -1145,6 +1166,9 @@ class C18(Property):
             if exactish or abs(net) > Fraction(1, 10 ** 12) * tot:
                 if net == 0 and w:
                     return 'neutral composition (net charge exactly 0) drew the warning'
+            if c.get('paper_neutral') and w:
+                return ('composition that is neutral in decimal arithmetic drew the warning: float net charge %.3g, total %.3g (the tolerance '
+                        'tot*1e-14 must absorb the rounding of <= 8 products and sums)' % (float(net), float(tot)))
                 if abs(net) >= Fraction(11, 10 ** 15) * tot and net != 0 and not w and all(b >= 0 for b in bs):
                     return 'composition with net charge %s (tot %s) drew no warning' % (float(net), float(tot))
         elif w:
@@ -1221,6 +1245,15 @@ class C18(Property):
         for p in vals:
             if not close(vals[p], vals['num'], 1e-9, 0.0):
                 return '%s: path %s gives %r, built-in numeric path gives %r' % (c['which'], p, vals[p], vals['num'])
+        import sympy
+        for p in ('num', 'const_plain'):
+            for be in ('math', sympy):
+                try:
+                    vb = self._real_ab(c, p, backend=be)
+                except Exception as e:
+                    return '%s on path %s with backend %s raised %s: %s' % (c['which'], p, getattr(be, '__name__', be), exc_name(e), str(e)[:60])
+                if not close(vb, vals[p], 1e-12, 0.0):
+                    return '%s on path %s: backend %s gives %r, default backend %r' % (c['which'], p, getattr(be, '__name__', be), vb, vals[p])
         return None
 
     def _oracle_lg(self, c):
@@ -1237,6 +1270,15 @@ class C18(Property):
                 'davies': lambda: lg_davies(I, z, A, c['C'])}[c['f']]()
         if not close(got, want, 1e-9, 1e-300):
             return '%s_log_gamma(I/I0=%r, z=%r, ...) = %r, formula gives %r' % (c['f'], I, z, got, want)
+        if not c['units']:
+            import sympy
+            for be in ('math', sympy):
+                try:
+                    gb = self._real_lg(c, backend=be)
+                except Exception as e:
+                    return '%s_log_gamma with backend %s raised %s: %s' % (c['f'], getattr(be, '__name__', be), exc_name(e), str(e)[:60])
+                if not close(gb, got, 1e-12, 1e-300):
+                    return '%s_log_gamma: backend %s gives %r, default backend %r' % (c['f'], getattr(be, '__name__', be), gb, got)
         try:
             zero = self._real_lg(c, IS=0.0)
             if zero != 0.0:
@@ -1292,6 +1334,32 @@ class C18(Property):
             want = math.exp(tot)
         except OverflowError:
             want = float('inf')
+        # the same sum with the library's own A and B (isolates the loop from the vintage of the constants): tight
+        from chempy import electrolytes as E
+        Al, Bl = float(E.A(c['eps'], c['T'], c['rho'])), float(E.B(c['eps'], c['T'], c['rho']))
+        tl, ml = 0.0, 0.0
+        for i in range(k):
+            if c['f'] in ('lim', 'cls_lim'):
+                t = c['stoich'][i] * lg_limiting(IS, c['z'][i], Al)
+            elif c['f'] in ('ext', 'cls_ext'):
+                t = c['stoich'][i] * lg_extended(IS, c['z'][i], c['a'][i], Al, Bl, c['C'])
+            else:
+                t = c['stoich'][i] * lg_davies(IS, c['z'][i], Al, c['C'])
+            tl += t
+            ml += abs(t)
+        try:
+            wl = math.exp(tl)
+        except OverflowError:
+            wl = float('inf')
+        if not close(float(r), wl, 1e-11 * max(1.0, ml), 0.0):
+            return '%s activity product is %r, exp(sum nu ln gamma) with the library\'s A, B = %r' % (c['f'], float(r), wl)
+        if not c['f'].startswith('cls') and abs(tl) < 600:
+            import sympy
+            for be in ('math', sympy):
+                rb, _ = self._real_ap(c, backend=be)
+                if isinstance(rb, Exception) or not close(float(rb), float(r), 1e-12, 0.0):
+                    return '%s activity product: backend %s gives %r, default backend %r' % (
+                        c['f'], getattr(be, '__name__', be), rb, float(r))
         if not close(float(r), want, min(0.5, 1e-6 * max(1.0, mag)), 0.0):
             return '%s activity product is %r, exp(sum nu ln gamma) = %r' % (c['f'], float(r), want)
         return None
@@ -1300,7 +1368,8 @@ class C18(Property):
     def classify(self, c):
         kd = c['kind']
         if kd == 'is':
-            return 'is:%s:%s:%s%s%s' % (c['form'], c['num'], c['target'].split('*')[0], '' if c['warn'] else ':nowarn',
+            return 'is:%s:%s:%s%s%s%s' % (c['form'], c['num'], c['target'].split('*')[0], ':decimal' if c.get('paper_neutral') else '',
+                                          '' if c['warn'] else ':nowarn',
                                         (':subs=' + c['smode']) if c.get('smode') else '')
         if kd == 'ab':
             return 'ab:%s:%s' % (c['which'], c['path'])
